@@ -18,7 +18,7 @@ LEVEL = "exploration"
 TECHNIQUE = "exhaustive enumeration of wrapper stacks x option dictionaries with an independent overlay oracle and deep-snapshot immutability checks"
 RULE = (
     "X in {tuple of A/S.X/S.Y reads, whole-section read, dataset with callback+effects (also spelled as a chain of specialised factories with .where() parameters), dataset with dispatch and "
-    "overloads, dataset whose overloads are registered after the wrapper stack was built, nocache dataset}; wrapper layers WithOptions / WithDefaultOptions / decorator options= / "
+    "overloads, dataset whose overloads are registered after the wrapper stack was built, datasets defined from another dataset / from a default-options wrapper, nocache dataset}; wrapper layers WithOptions / WithDefaultOptions / decorator options= / "
     "default_options= / both / .with_options / .with_default_options, all stacks of depth <= 3 (dataset-level layers "
     "only while the object is still a Dataset); 4 pre-set and 3 default dictionaries overlapping inside section S; "
     "caller dictionaries = product A x S.X x S.Y x LST, passed as ONE dictionary object updated in place between calls; X also includes consumers / callbacks that modify the values they receive in place.  Non-trivial = (stack, o) where the overlay differs from o."
@@ -46,6 +46,9 @@ def _xs():
     # an overload registered on the base dataset AFTER every wrapper / derivative of the stack has been built
     X.append(("ds-late-overload", ("ds", "x6", {"params": [("opt", "S.Y", ("val", 0))], "dispatch": ("optkey", "A"),
                                                 "overloads": [(1, ("val", "one"))], "late_overloads": [(9, ("opt", "S.X", ("val", 0))), (8, READ3)]}), True))
+    # datasets defined from an expression (another dataset / a wrapper) instead of a function
+    X.append(("ds-of-dataset", ("ds", "x8", {"definition": ("ds", "x8i", {"params": [READ3], "options": {"S": {"Y": 6}}})}), True))
+    X.append(("ds-of-default-wrapper", ("ds", "x9", {"definition": ("withopt", READ3, {"A": 5, "S": {"X": 5}}, False), "callback": ("fn", "cb")}), True))
     X.append(("ds-nocache", ("ds", "x5", {"params": [READ3], "cache": "none"}), True))
     # consumers that modify the values they receive in place: nothing they get may alias the caller's or
     # the pre-set dictionaries
